@@ -20,3 +20,7 @@
 (ground (atoms p q) (actions (merge_p (pre (((p T)))) (effs ((()) q T))) (K_p_empty (pre (())) (effs ((()) p T)))) (goal (((q T)))) (init (states (F F) (T F))) (bounds 4 2))
 ; lifted: universal precondition, forall effect, existential effect condition
 (lifted (objs o1 o2) (fluents (p 1) (q 1) (r 0) (g 0)) (actions (a (params x) (pre (forall y (lit F q y))) (effs (eff (vars w) (lit T p w) (q w) T))) (b (params) (pre) (effs (eff (vars) (exists y (lit T q y)) (g) T)))) (goals (lit T g)) (init (states ((p o1)) ((p o2)) ((p o1) (p o2)))) (bounds 3 2))
+; relevance chain through the complement rule: a -> b is a direct effect edge, b -> c exists only as the complement of
+; (not b) -> (not c); if the closure is not re-run after the complement rule, a is not relevant to c, s1 is dropped
+; from the basis although it is not dominated, and the compiled problem accepts [prepare finish], which fails from s1
+(ground (atoms a b c d) (actions (prepare (pre (())) (effs ((((a T))) b T))) (finish (pre (())) (effs ((()) d T) ((((b F))) c F)))) (goal (((c T) (d T)))) (init (states (T F T F) (F F T F))) (bounds 4 2))
